@@ -19,6 +19,7 @@
 package crypto
 
 import (
+	"bytes"
 	"context"
 	"crypto"
 	"crypto/ecdsa"
@@ -198,11 +199,19 @@ func ParseJWS(token []byte, f PublicKeyFunc) (payload []byte, err error) {
 	if err != nil {
 		return nil, err
 	}
+	// The signing input is taken from the compact serialization below, so only that form is accepted: the text of a
+	// JSON serialization can contain '.' anywhere, and it can carry any number of signatures.
+	if bytes.HasPrefix(bytes.TrimSpace(token), []byte("{")) {
+		return nil, errors.New("JWS is not in compact serialization format")
+	}
 	headers, body, _, err := jws.SplitCompact(token)
 	if err != nil {
 		return nil, err
 	}
 	signatures := message.Signatures()
+	if len(signatures) != 1 {
+		return nil, errors.New("JWS must contain exactly one signature")
+	}
 	for i := range signatures {
 		signature := signatures[i]
 		// Get and check the algorithm
